@@ -32,7 +32,7 @@ func fuzzProp[C any](f *testing.F, id string, gen func(*rapid.T) C, check func(C
 
 func FuzzC01(f *testing.F) { fuzzProp(f, "C01", genC01, checkC01) }
 func FuzzC02(f *testing.F) { fuzzProp(f, "C02", genC02, checkC02) }
-func FuzzC03(f *testing.F) { fuzzProp(f, "C03", genC03, checkC03) }
+func FuzzC03(f *testing.F) { c03Chromosome = true; fuzzProp(f, "C03", genC03, checkC03) }
 func FuzzC04(f *testing.F) { fuzzProp(f, "C04", genC04, checkC04) }
 func FuzzC06(f *testing.F) { fuzzProp(f, "C06", genC06, checkC06) }
 func FuzzC07(f *testing.F) { fuzzProp(f, "C07", genC07, checkC07) }
